@@ -27,6 +27,7 @@ type Import struct {
 	Pkg    string // package specifier when Target < 0
 	Style  int
 	Spec   string // how the specifier is written: "", "ext", "alias"
+	Attr   bool   // JSON only: written as `import x from "./a.json" with { type: "json" }`
 }
 
 const (
@@ -79,6 +80,7 @@ type Pkg struct {
 	Entry       int    // 0 main, 1 module+main, 2 exports map
 	Version     int
 	Deleted     bool
+	PeerMissing bool // the "module" build of the package imports a peer that is not installed
 }
 
 type Project struct {
@@ -89,6 +91,7 @@ type Project struct {
 	PkgType   string // root package.json "type"
 	HasRootPJ bool
 	PJPad     int  // layout of the root package.json: fields and lines in front of "type"
+	PJVer     int  // a field behind "type" on the same line (changes the line text, not the position of "type")
 	Legacy    bool // src/legacy.js (plain CommonJS text without import/export) is imported by module 0:
 	// inside a "type": "module" package its diagnostics carry notes that point into package.json
 	TS           *TSConfig
@@ -190,6 +193,7 @@ func GenProject(g G, root string) *Project {
 		pk.Type = []string{"", "module", "commonjs"}[g.n(3)]
 		pk.SideEffects = g.n(3)
 		pk.Entry = g.n(3)
+		pk.PeerMissing = pk.Entry == 1 && g.n(6) == 0
 		p.Pkgs = append(p.Pkgs, pk)
 	}
 	// import edges: module i imports from modules with larger index mostly (DAG), with
@@ -244,7 +248,8 @@ func GenProject(g G, root string) *Project {
 			} else {
 				imp.Style = ImpDefault
 				if tm.Kind == "json" {
-					imp.Style = []int{ImpDefault, ImpNamed, ImpStar}[g.n(3)]
+					imp.Style = []int{ImpDefault, ImpNamed, ImpStar, ImpDefault}[g.n(4)]
+					imp.Attr = imp.Style == ImpDefault && g.n(3) == 0
 				}
 				if tm.Kind == "css" {
 					imp.Style = ImpSideEffect
@@ -473,6 +478,9 @@ func (p *Project) RenderModule(m *Module) string {
 				fmt.Fprintf(&sb, "import asset%d from %s;\n", id, q)
 				used = append(used, fmt.Sprintf("asset%d", id))
 			}
+		case nonJS && t.Kind == "json" && im.Attr && !cjs:
+			fmt.Fprintf(&sb, "import asset%d from %s with { type: \"json\" };\n", id, q)
+			used = append(used, fmt.Sprintf("asset%d", id))
 		case nonJS:
 			fmt.Fprintf(&sb, "import asset%d from %s;\n", id, q)
 			used = append(used, fmt.Sprintf("asset%d", id))
@@ -616,6 +624,9 @@ func (p *Project) renderPkg(pk *Pkg, files map[string]string) {
 	} else {
 		files[pk.Dir+"/index.js"] = cjs
 	}
+	if pk.PeerMissing && pk.Entry == 1 {
+		esm = fmt.Sprintf("import \"missing-peer-of-%s\";\n", pk.Name) + esm
+	}
 	files[pk.Dir+"/esm.mjs"] = esm
 }
 
@@ -645,7 +656,11 @@ func (p *Project) Render() map[string]string {
 				pad += ",\n  \"description\": \"line\""
 			}
 		}
-		files["package.json"] = fmt.Sprintf(`{"name": "proj"%s%s}`, pad, ty)
+		ver := ""
+		if p.PJVer > 0 {
+			ver = fmt.Sprintf(`, "version": "1.0.%d"`, p.PJVer%10)
+		}
+		files["package.json"] = fmt.Sprintf(`{"name": "proj"%s%s%s}`, pad, ty, ver)
 	}
 	if p.TS != nil {
 		files["tsconfig.json"] = p.TS.render()
@@ -842,6 +857,9 @@ var smVariants = []string{
 	`{"version":3,"sources":["orig.ts"],"names":[],"mappings":5}`,
 	`{"version":3,"sources":["orig.ts"],"names":{"a":1},"mappings":";;;;;;;;AAAA,,,"}`,
 	`{"version":3,"sourceRoot":"rel/root","sources":["../x/orig.ts"],"names":["n1","n2"],"mappings":"AAAAA,IAAIC;AACA"}`,
+	// index maps: a good section followed by a section whose mappings go bad after a named segment
+	`{"version":3,"sections":[{"offset":{"line":0,"column":0},"map":{"version":3,"sources":["s.ts"],"names":["n"],"mappings":"AAAAA"}},{"offset":{"line":1,"column":0},"map":{"version":3,"sources":["t.ts"],"names":["m"],"mappings":"AAAAA,!"}}]}`,
+	`{"version":3,"sections":[{"offset":{"line":0,"column":0},"map":{"version":3,"sources":["s.ts"],"names":["n"],"mappings":"AAAAA,ICAAC"}},{"offset":{"line":0,"column":9},"map":{"version":3,"sources":[],"names":[],"mappings":"AAAA"}},{"offset":{"line":2,"column":0},"map":{"version":3,"sources":["u.ts"],"names":["a","b"],"mappings":"AAAAC;AACAC,$$$"}}]}`,
 }
 
 // AddCSSSite adds a small style-sheet site to the project: several CSS entry points
